@@ -180,7 +180,9 @@ func (p *Path) bigNeg(x *Term) *Term {
 	}
 	r := p.tt.BVNeg(x)
 	p.setBound(r, p.bound(x))
-	p.widthOK(p.bound(x), func() *Term { return FalseT }, "Neg")
+	p.widthOK(p.bound(x)+1, func() *Term {
+		return p.tt.Not(p.tt.Eq(x, BVConst(new(big.Int).Neg(pow2(x.S.W-1)), x.S.W)))
+	}, "Neg")
 	return r
 }
 
@@ -333,6 +335,9 @@ func (p *Path) bigLsh(x *Term, n *Term) *Term {
 	}
 	r := tt.BVShl(x, amt)
 	p.widthOK(w, func() *Term {
+		if bx := p.bound(x); bx < w-1 {
+			return tt.ULe(amt, BVConstU(uint64(w-1-bx), w))
+		}
 		return tt.And(tt.ULt(amt, BVConstU(uint64(w), w)), tt.Eq(tt.BVAShr(r, amt), x))
 	}, "Lsh(symbolic)")
 	p.setBound(r, w)
